@@ -248,7 +248,25 @@ pub fn suites(id: &str, tier: Tier) -> Vec<Suite> {
             v
         }
         "C06" => {
-            let progs = with_abort(3);
+            let mut progs = with_abort(3);
+            // sibling containment needs >= 4 nodes: an abortable member next to a live sibling in
+            // every combinator position (the handle is taken *before* the member is combined)
+            let members: Vec<P> = vec![P::Req(s0()), P::Stream(s0()), P::Burst(s0(), s0()), P::Join(s0(), s0()), P::SpawnJoin(s0(), s0()), P::ReqReq(s0(), s0()), P::StreamStream(s0(), s0()), P::Event(s0())];
+            for a in &members {
+                for b in &members {
+                    let ab = || P::abortable(0, a.clone());
+                    progs.push(P::All(vec![ab(), b.clone()]).normalized());
+                    progs.push(P::All(vec![b.clone(), ab()]).normalized());
+                    progs.push(P::and(ab(), b.clone()).normalized());
+                    progs.push(P::and(b.clone(), ab()).normalized());
+                    progs.push(P::then(ab(), b.clone()).normalized());
+                    progs.push(P::then(b.clone(), ab()).normalized());
+                    progs.push(P::All(vec![ab(), b.clone(), P::Req(s0())]).normalized());
+                    progs.push(P::MapEvent(Box::new(P::All(vec![ab(), b.clone()]))).normalized());
+                }
+            }
+            progs.sort();
+            progs.dedup();
             let mut v = vec![];
             v.push(Suite { name: "aborts+drops", host: HostKind::Direct, programs: progs.clone(), bounds: bounds(tier.pick(6, 8), tier.pick(1, 2), 1, tier.pick(1, 2), 2) });
             v.push(Suite { name: "aborts+drops", host: HostKind::StreamPoll, programs: progs.clone(), bounds: bounds(tier.pick(5, 8), tier.pick(1, 2), 1, tier.pick(1, 2), 2) });
